@@ -174,6 +174,87 @@ func genPart(cfg Config, emit func(string, bool, []string)) {
 			emit(fmt.Sprintf("part walker top=%d rootonly=%d", top, ro), true, g.ops)
 			continue
 		}
+		if c%8 == 5 {
+			// restructuring walker: deletes that pull a child up one level (node with a
+			// leaf and a single child; node4 left with one child) followed by further
+			// writes below the moved node in the SAME transaction, with watches on the
+			// moved node taken from the version before
+			stem := [][]byte{{}, {'s'}, {0}}[r.IntN(3)]
+			k := func(suffix string) string { return hx(append(append([]byte{}, stem...), []byte(suffix)...)) }
+			g.emit("txn 0")
+			g.emit("ins %s 1", k("x"))
+			withLeaf := r.IntN(3) != 0
+			if withLeaf {
+				g.emit("ins %s 2", k("a"))
+			} else {
+				g.emit("ins %s 2", k("ag"))
+			}
+			g.emit("ins %s 3", k("abc"))
+			if r.IntN(4) != 0 {
+				g.emit("ins %s 4", k("abd"))
+			}
+			g.emit("commit")
+			g.addVer(0)
+			g.head = g.nvers - 1
+			g.emit("notify")
+			for round := 0; round < 3; round++ {
+				base := g.head
+				for _, q := range []string{"a", "ab", "abe", "abc", "abd", "ag", ""} {
+					g.emit("vprefix %d %s", base, k(q))
+					g.emit("vget %d %s", base, k(q))
+				}
+				g.emit("vrootwatch %d", base)
+				g.emit("txn %d", base)
+				if withLeaf {
+					g.emit("del %s", k("a"))
+				} else {
+					g.emit("del %s", k("ag"))
+				}
+				for i := 1 + r.IntN(3); i > 0; i-- {
+					switch r.IntN(5) {
+					case 0:
+						g.emit("ins %s %d", k("abe"), 10+i)
+					case 1:
+						g.emit("del %s", k("abd"))
+					case 2:
+						g.emit("ins %s %d", k("abc"), 20+i)
+					case 3:
+						g.emit("del %s", k("abc"))
+					case 4:
+						g.emit("ins %s %d", k("a"), 30+i)
+					}
+				}
+				g.emit("dump")
+				g.emit("commit")
+				g.addVer(base)
+				g.head = g.nvers - 1
+				g.emit("closed")
+				g.emit("notify")
+				g.emit("closed")
+				g.emit("viter %d", base)
+				// rebuild for the next round
+				base = g.head
+				g.emit("txn %d", base)
+				if withLeaf {
+					g.emit("ins %s 2", k("a"))
+				} else {
+					g.emit("ins %s 2", k("ag"))
+				}
+				g.emit("ins %s 3", k("abc"))
+				g.emit("ins %s 4", k("abd"))
+				g.emit("del %s", k("abe"))
+				g.emit("commit")
+				g.addVer(base)
+				g.head = g.nvers - 1
+				g.emit("notify")
+			}
+			for v := 0; v < g.nvers; v++ {
+				g.emit("viter %d", v)
+				g.emit("vlen %d", v)
+			}
+			emit(fmt.Sprintf("part restructure rootonly=%d", ro), true, g.ops)
+			continue
+		}
 		ntx := 1 + r.IntN(maxTxns)
 		for t := 0; t < ntx; t++ {
 			base := g.head
